@@ -1429,10 +1429,11 @@ struct array : static_array<T, D, Alloc> {
 		if(array::extensions() == extensions) {
 			adl_fill_n(this->base_, this->num_elements(), elem);
 		} else {
+			// the new value is built first (same allocator, so its block is adopted), the old one is released only if that succeeded
+			array tmp(extensions, elem, this->get_allocator());
 			this->clear();
-			(*this).array::layout_t::operator=(layout_t<D>{extensions});
-			this->base_ = this->static_::array_alloc::allocate(this->num_elements(), nullptr);
-			adl_alloc_uninitialized_fill_n(this->alloc(), this->base_, this->num_elements(), elem);
+			this->base_            = std::exchange(tmp.base_, nullptr);
+			this->layout_mutable() = std::exchange(tmp.layout_mutable(), typename array::layout_type(typename array::extensions_type{}));
 		}
 	}
 
